@@ -950,7 +950,7 @@ class PySpec:
             raise SpecInternal("RuntimeError")
         if name == "Int":
             if isinstance(raw, bool):
-                return raw
+                return int(raw)          # coerce_int since d72dd53: True / False are the integers 1 / 0 (JSON 1 / 0)
             if isinstance(raw, int):
                 n = raw
             elif isinstance(raw, str) and raw.lstrip("-").isdigit() and raw.isascii():
